@@ -3,6 +3,11 @@ import json
 from gen_counter import *  # noqa
 
 PROP_FILES = ["Counter/Properties_C03.v"]
+MANIFEST = dict(
+    technique="Coq proof (induction over the line list / source suffix) on a Gallina port of sloc.rs+comment.rs, tied by differential execution of the extracted model against SlocCounter's three entry points",
+    text="Theorems C03_partition, C03_total_is_line_count, C03_line_splitters_agree, C03_entry_points_agree, C03_append_monotone, C03_append_ignored_only_by_directive hold for every syntax value and every source (unbounded). The tie to the Rust code is a seeded differential run (built-in and adversarial custom syntaxes, arbitrary bytes, append pairs) plus the property oracles evaluated on the implementation itself.",
+    note="Trusted: Coq kernel, extraction (ExtrOcamlBasic), harness sgv-counter, UTF-8 lossy decoding of std. Panic-freedom/termination of the Rust loops is observed (catch_unwind, deadline), not proved.",
+    ref="5 (C03)")
 
 
 def oracle_c03(text, d):
@@ -62,7 +67,7 @@ def wire(c):
 def run(ctx):
     impl, model, langs = prepare_counter(ctx)
     proofs_ok = proofs_step(ctx, PROP_FILES)
-    n = 6000 if ctx.tier == "quick" else 120000
+    n = 20000 if ctx.tier == "quick" else 120000
     corpus = load_corpus(langs)
     cases = corpus + gen_cases(ctx, langs, n)
     outs, errs = run_sharded(impl, [wire(c) for c in cases], timeout=900, args=["run"])
